@@ -434,6 +434,12 @@ func (r *renderState) filterRaw(rawHTML []byte) {
 					i += len("<!x")
 				default:
 					tagNameStart := i + 1
+					if tagNameStart >= len(rawHTML) || !opensHTMLMarkup(rawHTML[tagNameStart]) {
+						// An HTML tokenizer reads this '<' as text
+						// and looks for tags again right after it.
+						i++
+						continue
+					}
 					tagEnd := len(rawHTML)
 					if j := bytes.IndexByte(rawHTML[tagNameStart:], '>'); j >= 0 {
 						tagEnd = tagNameStart + j + len(">")
@@ -481,6 +487,13 @@ func (r *renderState) filterRaw(rawHTML []byte) {
 	}
 
 	r.dst = append(r.dst, rawHTML[copyStart:]...)
+}
+
+// opensHTMLMarkup reports whether c directly after a '<'
+// makes an HTML tokenizer leave its data state:
+// a tag name, an end tag, a declaration or comment, or a bogus comment.
+func opensHTMLMarkup(c byte) bool {
+	return isASCIILetter(c) || c == '/' || c == '!' || c == '?'
 }
 
 func appendAltText(dst []byte, source []byte, parent *Inline) []byte {
